@@ -64,6 +64,10 @@ class Encoder:
             except Exception:  # noqa
                 anc = None
         tag = None
+        if type(x).__name__ == "ScalarBoolean":
+            # convention of coq/Lib/Doc.v (is_sbool): an int-valued leaf carrying the YAML bool tag
+            return "i%d %s %s %s" % (self.oid(x), "none" if anc is None else hexs(anc),
+                                     "true" if has else "false", hexs("tag:yaml.org,2002:bool"))
         t = getattr(x, "tag", None)
         if t is not None:
             tv = getattr(t, "value", None)
